@@ -13,8 +13,8 @@
   is claimed as *partial*.
 
   Unless said otherwise the statements hold for every environment `e : Env` (any set of soundfile types, any
-  classification of non-ASCII word characters, any set of missing optional packages); `env` is this
-  installation.
+  classification of non-ASCII word characters, any set of missing optional packages); the examples use `exEnv`, an
+  installation with soundfile (wav, flac, aiff, ogg) and without scipy.
 -/
 import PdsVerif.Model.ReadSignal
 import PdsVerif.Lemmas.ReadSignal
@@ -24,6 +24,9 @@ namespace PdsVerif.C11
 
 open PdsVerif.Model.ReadSignal
 open PdsVerif.Gen.ReadSig
+
+/-- the environment of the examples: soundfile handles wav / flac / aiff / ogg, scipy is missing -/
+def exEnv : Env := ⟨[(str% "aiff"), (str% "flac"), (str% "ogg"), (str% "wav")], fun _ => false, [.wavScipy]⟩
 
 /-- `_infer_force_as_from_rfilename` on the generated chain -/
 abbrev infer (e : Env) (name : Str) : Except Err Str :=
@@ -51,10 +54,10 @@ theorem tableMatch_iff (e : Env) (s : Str) :
         s = pre ++ optsTail opts rest :=
   tableMatch_iff_lang e.word (word_sep e).1 (word_sep e).2 s
 
-example : tableMatch env.word (str% "ark,t,cs:foo.wav") = true := by decide
-example : tableMatch env.word (str% "scp:x") = true ∧ tableMatch env.word (str% "ark,:x") = false
-    ∧ tableMatch env.word (str% "ark,a-b:x") = false ∧ tableMatch env.word (str% "Ark:x") = false
-    ∧ tableMatch env.word (str% "xark:x") = false ∧ tableMatch env.word (str% "ark") = false := by decide
+example : tableMatch exEnv.word (str% "ark,t,cs:foo.wav") = true := by decide
+example : tableMatch exEnv.word (str% "scp:x") = true ∧ tableMatch exEnv.word (str% "ark,:x") = false
+    ∧ tableMatch exEnv.word (str% "ark,a-b:x") = false ∧ tableMatch exEnv.word (str% "Ark:x") = false
+    ∧ tableMatch exEnv.word (str% "xark:x") = false ∧ tableMatch exEnv.word (str% "ark") = false := by decide
 
 /-! ## suffix → type inference -/
 
@@ -132,17 +135,21 @@ theorem no_suffix_ioerror (e : Env) (name : Str) (h0 : tableMatch e.word name = 
   (no_suffix_ioerror_iff e name).2 ⟨h0, h1, hs⟩
 
 -- no dot / dot only / upper case / a type that is not at the end: all `IOError` on this installation
-example : infer env (str% "foo") = .error .ioError ∧ infer env (str% ".") = .error .ioError
-    ∧ infer env (str% "") = .error .ioError ∧ infer env (str% "x.WAV") = .error .ioError
-    ∧ infer env (str% "x.npy.bak") = .error .ioError ∧ infer env (str% "xwav") = .error .ioError
-    ∧ infer env (str% "x.wav ") = .error .ioError := by decide
+example : infer exEnv (str% "foo") = .error .ioError ∧ infer exEnv (str% ".") = .error .ioError
+    ∧ infer exEnv (str% "") = .error .ioError ∧ infer exEnv (str% "x.WAV") = .error .ioError
+    ∧ infer exEnv (str% "x.npy.bak") = .error .ioError ∧ infer exEnv (str% "xwav") = .error .ioError
+    ∧ infer exEnv (str% "x.wav ") = .error .ioError := by decide
+
+-- the hypotheses of `no_suffix_ioerror`, spelled out on one name
+example : tableMatch exEnv.word (str% "notes.txt") = false ∧ lastSeg (str% "notes.txt") ∉ exEnv.sf
+    ∧ ∀ s ∈ chainSuffixes, hasSuffix (str% "notes.txt") s = false := by decide
 
 /-- a Kaldi table rspecifier is a table, whatever follows the colon -/
 theorem table_rspecifier (e : Env) (name : Str) (h : tableMatch e.word name = true) :
     infer e name = .ok (str% "table") := by
   simp [infer, inferForceAs, config, Rule.apply, h]
 
-example : infer env (str% "ark:foo.npy") = .ok (str% "table") := by decide
+example : infer exEnv (str% "ark:foo.npy") = .ok (str% "table") := by decide
 
 /-- **`suffix_maps_to_kind`**: each documented suffix gives its type, for every stem, on every installation
 (whether or not soundfile is there), provided the name is not a Kaldi table rspecifier. -/
@@ -178,6 +185,11 @@ theorem suffix_maps_to_kind (e : Env) (stem : Str) :
       simp [infer, inferForceAs, config, List.findSome?, Rule.apply, h0, hs, hm, hasSuffix, List.isSuffixOf,
         List.reverse_append, List.isPrefixOf]
 
+example : tableMatch exEnv.word ((str% "a/b c") ++ (str% ".wav")) = false
+    ∧ tableMatch exEnv.word ((str% "ark") ++ (str% ".npy")) = false
+    ∧ infer exEnv ((str% "ark") ++ (str% ".npy")) = .ok (str% "npy") := by decide
+
+set_option linter.unusedSimpArgs false in -- `hw` is needed when the `.wav` test stands before the soundfile test
 /-- a name whose last `.`-segment is a soundfile type gets that type -/
 theorem sf_suffix (e : Env) (name : Str) (h0 : tableMatch e.word name = false) (h : lastSeg name ∈ e.sf) :
     infer e name = .ok (lastSeg name) := by
@@ -187,8 +199,8 @@ theorem sf_suffix (e : Env) (name : Str) (h0 : tableMatch e.word name = false) (
     exact (suffix_maps_to_kind e stem).1 h0
   · simp [infer, inferForceAs, config, Rule.apply, h0, h, hw]
 
-example : tableMatch env.word (str% "a.b.flac") = false ∧ lastSeg (str% "a.b.flac") ∈ env.sf
-    ∧ infer env (str% "a.b.flac") = .ok (str% "flac") := by decide
+example : tableMatch exEnv.word (str% "a.b.flac") = false ∧ lastSeg (str% "a.b.flac") ∈ exEnv.sf
+    ∧ infer exEnv (str% "a.b.flac") = .ok (str% "flac") := by decide
 
 /-- a name ending in `|` (and in no soundfile type) is a Kaldi input pipe -/
 theorem pipe_suffix (e : Env) (stem : Str) (h0 : tableMatch e.word (stem ++ (str% "|")) = false)
@@ -196,9 +208,11 @@ theorem pipe_suffix (e : Env) (stem : Str) (h0 : tableMatch e.word (stem ++ (str
   simp [infer, inferForceAs, config, List.findSome?, Rule.apply, h0, h1, hasSuffix, List.isSuffixOf,
     List.reverse_append, List.isPrefixOf]
 
-example : infer env (str% "gunzip -c x.wav.gz |") = .ok (str% "kaldi") := by decide
-example : infer env (str% "x.wav.npy") = .ok (str% "npy") ∧ infer env (str% "x.npy.wav") = .ok (str% "wav")
-    ∧ infer env (str% ".npz") = .ok (str% "npz") ∧ infer env (str% "a.b/c.pt") = .ok (str% "pt") := by decide
+example : tableMatch exEnv.word ((str% "cat x") ++ (str% "|")) = false
+    ∧ lastSeg ((str% "cat x") ++ (str% "|")) ∉ exEnv.sf := by decide
+example : infer exEnv (str% "gunzip -c x.wav.gz |") = .ok (str% "kaldi") := by decide
+example : infer exEnv (str% "x.wav.npy") = .ok (str% "npy") ∧ infer exEnv (str% "x.npy.wav") = .ok (str% "wav")
+    ∧ infer exEnv (str% ".npz") = .ok (str% "npz") ∧ infer exEnv (str% "a.b/c.pt") = .ok (str% "pt") := by decide
 
 /-- The soundfile test stands before the `.wav` test in the source.  That precedence is unobservable: a name
 ending in `.wav` is typed `wav` whether or not soundfile handles wav (both rules answer `wav`), and `wav` is
@@ -216,8 +230,9 @@ theorem bare_type_name (e : Env) (t : Str) (ht : t ∈ e.sf) (hd : '.' ∉ t) (h
   have := sf_suffix e t h0 (by rw [lastSeg_no_dot t hd]; exact ht)
   rwa [lastSeg_no_dot t hd] at this
 
-example : infer env (str% "wav") = .ok (str% "wav") ∧ infer env (str% "flac") = .ok (str% "flac")
-    ∧ infer env (str% "npy") = .error .ioError := by decide
+example : (str% "ogg") ∈ exEnv.sf ∧ '.' ∉ (str% "ogg") ∧ tableMatch exEnv.word (str% "ogg") = false := by decide
+example : infer exEnv (str% "wav") = .ok (str% "wav") ∧ infer exEnv (str% "flac") = .ok (str% "flac")
+    ∧ infer exEnv (str% "npy") = .error .ioError := by decide
 
 /-- … and that is the only way the rule differs from "ends with `.` + type": for dot-free types, the last
 segment is a type iff the name *is* a type or ends with `.type`. -/
@@ -284,24 +299,47 @@ theorem unknown_force_as (e : Env) (isStream : Bool) (name fa : Str) (key : Key)
   simp only [disp, dispatch, hres, bind, Except.bind, dispatchOn, hfind]
   rfl
 
-example : (str% "WAV") ∉ forceAsLiterals ∧ (str% "WAV") ∉ env.sf ∧ (str% "") ∉ forceAsLiterals
-    ∧ (str% "mp3") ∉ env.sf := by decide
+example : (str% "WAV") ∉ forceAsLiterals ∧ (str% "WAV") ∉ exEnv.sf ∧ (str% "") ∉ forceAsLiterals
+    ∧ (str% "mp3") ∉ exEnv.sf := by decide
 
-/-- on this installation: which reader each accepted `force_as` value reaches for a file name … -/
-theorem force_as_reader :
-    (forceAsLiterals ++ env.sf).map (fun fa => (disp env false [] (some fa) .none none).map (·.reader)) =
-      [.ok .kaldiTable, .ok .wavWave, .ok .hdf5, .ok .npy, .ok .npz, .ok .torch, .ok .sphere, .ok .kaldiInput,
-       .ok .fromfile, .ok .soundfile, .ok .soundfile, .ok .soundfile, .ok .soundfile, .ok .wavWave] := by
-  decide
+/-- which reader each literal `force_as` value reaches for a file name when every optional package is there
+(whatever the soundfile types are) … -/
+theorem force_as_reader (e : Env) (hm : e.missing = []) (name : Str) :
+    forceAsLiterals.map (fun fa => (disp e false name (some fa) .none none).map (·.reader)) =
+      [.ok .kaldiTable, .ok .wavScipy, .ok .hdf5, .ok .npy, .ok .npz, .ok .torch, .ok .sphere, .ok .kaldiInput,
+       .ok .fromfile, .ok .soundfile] := by
+  simp [forceAsLiterals, disp, dispatch, resolveForceAs, dispatchOn, config, List.find?, Cond.holds, Branch.run,
+    onImportError, callReader, hm, bind, Except.bind, Except.map, pure, Except.pure, ReaderInfo.plan,
+    ReaderInfo.keySel, info_kaldiTable, info_wavScipy, info_hdf5, info_npy, info_npz, info_torch, info_sphere,
+    info_kaldiInput, info_fromfile, info_soundfile]
 
-/-- … and for a stream (`wav` is in the soundfile set, yet `force_as="wav"` goes to scipy / `wave`: the
-`== "wav"` test stands first). -/
-theorem force_as_reader_stream :
-    (forceAsLiterals ++ env.sf).map (fun fa => (disp env true [] (some fa) .none none).map (·.reader)) =
-      [.error .valueError, .ok .wavWave, .ok .hdf5, .ok .npy, .ok .npz, .ok .torch, .ok .sphere,
-       .error .valueError, .ok .fromfile, .ok .soundfile, .ok .soundfile, .ok .soundfile, .ok .soundfile,
-       .ok .wavWave] := by
-  decide
+theorem force_as_reader_stream (e : Env) (hm : e.missing = []) (name : Str) :
+    forceAsLiterals.map (fun fa => (disp e true name (some fa) .none none).map (·.reader)) =
+      [.error .valueError, .ok .wavScipy, .ok .hdf5, .ok .npy, .ok .npz, .ok .torch, .ok .sphere,
+       .error .valueError, .ok .fromfile, .ok .soundfile] := by
+  simp [forceAsLiterals, disp, dispatch, resolveForceAs, dispatchOn, config, List.find?, Cond.holds, Branch.run,
+    onImportError, callReader, hm, bind, Except.bind, Except.map, pure, Except.pure, ReaderInfo.plan,
+    ReaderInfo.keySel, info_kaldiTable, info_wavScipy, info_hdf5, info_npy, info_npz, info_torch, info_sphere,
+    info_kaldiInput, info_fromfile, info_soundfile]
+
+/-- a soundfile type that is not one of the literals goes to soundfile (path or stream) -/
+theorem sf_type_reader (e : Env) (hm : Reader.soundfile ∉ e.missing) (isStream : Bool) (name t : Str)
+    (ht : t ∈ e.sf) (hl : t ∉ forceAsLiterals) :
+    (disp e isStream name (some t) .none none).map (·.reader) = .ok .soundfile := by
+  simp only [forceAsLiterals, List.mem_cons, List.not_mem_nil, or_false, not_or] at hl
+  obtain ⟨a1, a2, a3, a4, a5, a6, a7, a8, a9, a10⟩ := hl
+  have hres : resolveForceAs config e isStream name (some t) = .ok t := by
+    cases isStream
+    · rfl
+    · have hmem : t ∉ config.streamRejected := by simp [config, a1, a8]
+      simp [resolveForceAs, hmem]
+  have hfind : config.arms.find? (fun a => a.cond.holds e t) =
+      some ⟨.eqOrInSf (str% "soundfile"), .call info_soundfile⟩ := by
+    have b : ∀ l : Str, t ≠ l → (t == l) = false := fun l h => by simpa using h
+    simp [config, List.find?, Cond.holds, b _ a1, b _ a2, b _ a3, b _ a4, b _ a5, b _ a6, b _ a7, b _ a8, b _ a9, ht]
+  have hmiss : e.missing.contains Reader.soundfile = false := by simpa using hm
+  simp only [disp, dispatch, hres, bind, Except.bind, dispatchOn, hfind, Branch.run, callReader, info_soundfile, hmiss]
+  rfl
 
 /-- with scipy installed `wav` goes to scipy, without it to `wave` (`try … except ImportError`) -/
 theorem wav_reader (e : Env) (isStream : Bool) (name : Str) (key : Key) (dtype : Option Str) :
@@ -315,13 +353,13 @@ theorem wav_reader (e : Env) (isStream : Bool) (name : Str) (key : Key) (dtype :
         Except.map, bind, Except.bind, pure, Except.pure]
 
 /-- file names of this installation, end to end -/
-example : (inferKind config env (str% "a/b.wav")) = .ok .wavWave
-    ∧ inferKind config env (str% "x.flac") = .ok .soundfile ∧ inferKind config env (str% "x.aiff") = .ok .soundfile
-    ∧ inferKind config env (str% "x.npy") = .ok .npy ∧ inferKind config env (str% "x.npz") = .ok .npz
-    ∧ inferKind config env (str% "x.pt") = .ok .torch ∧ inferKind config env (str% "x.hdf5") = .ok .hdf5
-    ∧ inferKind config env (str% "x.sph") = .ok .sphere ∧ inferKind config env (str% "ark:x") = .ok .kaldiTable
-    ∧ inferKind config env (str% "cat x |") = .ok .kaldiInput
-    ∧ inferKind config env (str% "x.bin") = .error .ioError := by decide
+example : (inferKind config exEnv (str% "a/b.wav")) = .ok .wavWave
+    ∧ inferKind config exEnv (str% "x.flac") = .ok .soundfile ∧ inferKind config exEnv (str% "x.aiff") = .ok .soundfile
+    ∧ inferKind config exEnv (str% "x.npy") = .ok .npy ∧ inferKind config exEnv (str% "x.npz") = .ok .npz
+    ∧ inferKind config exEnv (str% "x.pt") = .ok .torch ∧ inferKind config exEnv (str% "x.hdf5") = .ok .hdf5
+    ∧ inferKind config exEnv (str% "x.sph") = .ok .sphere ∧ inferKind config exEnv (str% "ark:x") = .ok .kaldiTable
+    ∧ inferKind config exEnv (str% "cat x |") = .ok .kaldiInput
+    ∧ inferKind config exEnv (str% "x.bin") = .error .ioError := by decide
 
 /-- a type the inference produces is always one the dispatch chain knows: from a file *name* the `ValueError`
 of the chain's `else` is unreachable. -/
@@ -546,14 +584,14 @@ theorem dtype_is_final_cast {α : Type} (e : Env) (P : Prims α) (isStream : Boo
           exact one i (hmem i (by simp [Branch.infos])) p hp hr
 
 -- hypotheses are satisfiable: a stereo wav by name, a flac stream, an npz entry, an HDF5 dataset by key
-example : (disp env false (str% "a.wav") none .none none).map (fun p => (p.reader, p.steps))
+example : (disp exEnv false (str% "a.wav") none .none none).map (fun p => (p.reader, p.steps))
     = .ok (.wavWave, [.reshape]) := by decide
-example : (disp env false (str% "a.wav") none .none (some (str% "float32"))).map (fun p => (p.steps, p.finalCast))
+example : (disp exEnv false (str% "a.wav") none .none (some (str% "float32"))).map (fun p => (p.steps, p.finalCast))
     = .ok ([.reshape, .cast], some (str% "float32")) := by decide
-example : (disp env true [] (some (str% "flac")) .none none).map (·.reader) = .ok .soundfile := by decide
-example : (disp env false (str% "a.npz") none (.str (str% "k")) none).map (fun p => (p.reader, p.key))
+example : (disp exEnv true [] (some (str% "flac")) .none none).map (·.reader) = .ok .soundfile := by decide
+example : (disp exEnv false (str% "a.npz") none (.str (str% "k")) none).map (fun p => (p.reader, p.key))
     = .ok (.npz, .entry (.str (str% "k"))) := by decide
-example : (disp env true [] (some (str% "hdf5")) (.str (str% "a/b")) none).map (·.reader) = .ok .hdf5 := by decide
+example : (disp exEnv true [] (some (str% "hdf5")) (.str (str% "a/b")) none).map (·.reader) = .ok .hdf5 := by decide
 
 /-- `_soundfile_read_signal` reads 16-bit PCM as int16 and 32-bit PCM as int32 (the stored sample type), float
 as float32, double as float64; everything it does not list – including unsigned 8-bit PCM, whose test compares
@@ -599,6 +637,16 @@ theorem wds_some {α : Type} (e : Env) (P : Prims α) (key : Str) (a : α)
   unfold wdsRead infer at *
   rw [h]
 
+/-- codecs that decode everything to `()` / that fail on everything (for the examples) -/
+def okPrims : Prims Unit := ⟨fun _ _ => .ok (), fun _ a => .ok a, fun a => .ok a, fun a => .ok a, fun _ a => .ok a⟩
+def failPrims : Prims Unit := ⟨fun _ _ => .error .decoder, fun _ a => .ok a, fun a => .ok a, fun a => .ok a, fun _ a => .ok a⟩
+
+example : (infer exEnv (str% "utt1.flac") >>= fun fa => readSignal config exEnv okPrims true [] (some fa) .none none)
+    = .ok () := by decide
+example : wdsRead config exEnv okPrims (str% "utt1.flac") = .ok (some ())
+    ∧ wdsRead config exEnv failPrims (str% "utt1.flac") = .ok none
+    ∧ wdsRead config exEnv okPrims (str% "utt1.txt") = .ok none := by decide
+
 /-- keys the inference refuses, and Kaldi keys (stream + Kaldi type ⇒ `ValueError`), give `None` whatever the
 bytes -/
 theorem wds_undecodable_key {α : Type} (e : Env) (P : Prims α) (key : Str)
@@ -610,7 +658,7 @@ theorem wds_undecodable_key {α : Type} (e : Env) (P : Prims α) (key : Str)
   · exact ⟨.valueError, rfl⟩
   · exact ⟨.valueError, rfl⟩
 
-example : infer env (str% "utt1.txt") = .error .ioError ∧ infer env (str% "npy") = .error .ioError
-    ∧ infer env (str% "ark:x") = .ok (str% "table") ∧ infer env (str% "x|") = .ok (str% "kaldi") := by decide
+example : infer exEnv (str% "utt1.txt") = .error .ioError ∧ infer exEnv (str% "npy") = .error .ioError
+    ∧ infer exEnv (str% "ark:x") = .ok (str% "table") ∧ infer exEnv (str% "x|") = .ok (str% "kaldi") := by decide
 
 end PdsVerif.C11
